@@ -26,6 +26,9 @@ type Result struct {
 	Tape       []uint64         `json:"tape"` // canonical tape
 	EventHash  string           `json:"event_hash,omitempty"`
 	Log        []string         `json:"log,omitempty"` // event log (only when requested)
+	// Distinct: further "reach" measures, name -> value of this run; the driver counts distinct
+	// values per name over the batch (e.g. schedules -> hash of the context-switch sequence)
+	Distinct map[string]string `json:"distinct,omitempty"`
 }
 
 // Env is what an engine receives for one run.
@@ -47,6 +50,14 @@ func (e *Env) Stat(name string, d int64) {
 		e.Res.Stats = map[string]int64{}
 	}
 	e.Res.Stats[name] += d
+}
+
+// Reach records this run's value for a distinct-count measure.
+func (e *Env) Reach(name, value string) {
+	if e.Res.Distinct == nil {
+		e.Res.Distinct = map[string]string{}
+	}
+	e.Res.Distinct[name] = value
 }
 
 // Violate records a violation; at most one per (oracle,key) per run.
